@@ -1,5 +1,6 @@
 import PedVerif.Props.C10
-open PedVerif.TypeSafe PedVerif.Checker
+import PedVerif.Props.FrozenIR
+open PedVerif.TypeSafe PedVerif.Checker PedVerif.FrozenIR
 #print axioms instance_iff_fields_conform
 #print axioms instance_fields_conform
 #print axioms validate_types_iff
@@ -25,3 +26,19 @@ open PedVerif.TypeSafe PedVerif.Checker
 #print axioms withCaller_eq_atCallSite
 #print axioms instance_iff_fields_conform_at_call_site
 #print axioms validate_types_iff_at_call_site
+-- the same theorems about the statement-by-statement translation of the source (Props/FrozenIR.lean)
+#print axioms decorator_is_model
+#print axioms facts_are_what_the_programs_say
+#print axioms shortcut_is_type_safe
+#print axioms outer_applies_or_returns
+#print axioms caller_walk_is_model
+#print axioms validate_types_is_model
+#print axioms validate_call_is_model
+#print axioms construction_is_model
+#print axioms ir_instance_iff_fields_conform
+#print axioms copy_values_are_model
+#print axioms ir_copy_instance_iff_fields_conform
+#print axioms ir_validate_types_iff
+#print axioms ir_post_init_runs_first
+#print axioms ir_post_init_exception
+#print axioms ir_caller_frame_selected
